@@ -374,6 +374,10 @@ func runTimeout(c caseT) obsT {
 }
 
 func main() {
+	if hx.Arg("-tscript", "") != "" {
+		runTScripts(hx.Arg("-tscript", ""), hx.Arg("-out", "tobs.ndjson"))
+		return
+	}
 	cases := hx.ReadCases[caseT](hx.Arg("-cases", "cases.ndjson"))
 	out := hx.NewOut(hx.Arg("-out", "obs.ndjson"))
 	defer out.Close()
